@@ -91,6 +91,20 @@ var pairs = []pair{
 		pre:   []probe{{"ingress", post("/a", "", "first")}},
 	},
 	{
+		// forward auth is consulted after the body was read, Basic before: a request that sees "no Basic" from the old
+		// configuration and "no forward auth" from the new one would be accepted without any credential
+		name:  "P8-forward-to-basic-same-route",
+		old:   head + `/a { auth forward "http://auth.verif.test/check"  pull { path /ea } }`,
+		new:   head + `/a { auth basic "u" "p"  pull { path /ea } }`,
+		probe: probe{"ingress", post("/a", "", "x")}, // 401 under old (the auth service refuses), 401 under new
+	},
+	{
+		name:  "P9-basic-to-forward-same-route",
+		old:   head + `/a { auth basic "u" "p"  pull { path /ea } }`,
+		new:   head + `/a { auth forward "http://auth.verif.test/check"  pull { path /ea } }`,
+		probe: probe{"ingress", post("/a", "", "x")},
+	},
+	{
 		name:  "P5-basic-to-hmac-same-route",
 		old:   head + `/a { auth basic "u" "p"  pull { path /ea } }`,
 		new:   head + `/a { auth hmac "raw:k"  pull { path /ea } }`,
@@ -135,8 +149,24 @@ func outcome(code int, body []byte, st queue.Store) string {
 }
 
 // mode 0: reload and request concurrently; 1: request only (old); 2: reload, then request (new).
+// authSvc is installed as http.DefaultTransport: the production ForwardAuth builds its own http.Client on the default
+// transport, so authenticators created by a reload reach it too. The service refuses every request (401).
+type authSvc struct{}
+
+func (authSvc) RoundTrip(rq *http.Request) (*http.Response, error) {
+	if rq.Body != nil {
+		rq.Body.Close()
+	}
+	return &http.Response{StatusCode: 401, Status: "401 Unauthorized", Proto: "HTTP/1.1", ProtoMajor: 1, ProtoMinor: 1, Header: http.Header{}, Body: http.NoBody, Request: rq}, nil
+}
+
 func body(p pair, mode int, dir string) func(x *sched.Exec) {
 	return func(x *sched.Exec) {
+		if strings.Contains(p.old+p.new, "auth forward") {
+			prev := http.DefaultTransport
+			http.DefaultTransport = authSvc{}
+			defer func() { http.DefaultTransport = prev }()
+		}
 		st := queue.NewMemoryStore()
 		for _, e := range p.seed {
 			st.Enqueue(e)
